@@ -326,16 +326,18 @@ def rust_prog(k, case, signame):
     loops_open = "".join(f"for a{i} in &{TYPES[t][2]}() {{ " for i, t in enumerate(sig))
     loops_close = "}" * len(sig)
     return (rust_ref_fn(k, case) +
-            f"fn prog_{k}() -> (String, String, String) {{\n"
-            f"    let (mut u, mut o, mut r) = (String::new(), String::new(), String::new());\n"
+            f"fn prog_{k}() -> (String, String, String, usize) {{\n"
+            f"    let (mut u, mut o, mut r, mut d) = (String::new(), String::new(), String::new(), 0usize);\n"
             f"    let m: &dyn Fn(&mut Matching<{mock}>) = matching!({rust_matching(case)});\n"
             f"    let mock = Unimock::new(({mock}.each_call(m).returns(true), {mock}.each_call(&|mm: &mut Matching<{mock}>| mm.func(|_, _| true)).returns(false)));\n"
             f"    {loops_open}\n"
+            f"        let before = s_debug_runs();\n"
             f"        u.push(bit({signame}::f(&mock, {args})));\n"
+            f"        d += s_debug_runs() - before;\n"
             f"        o.push(bit(ordered(|| {signame}::f(&Unimock::new({mock}.next_call(m).returns(true)), {args}))));\n"
             f"        r.push(bit(ref_{k}({refargs})));\n"
             f"    {loops_close}\n"
-            f"    (u, o, r)\n}}\n")
+            f"    (u, o, r, d)\n}}\n")
 
 
 def write_gen_rs(cases):
@@ -352,7 +354,7 @@ def write_gen_rs(cases):
         start = text.count("\n") + 1
         text += f"// ---- case {k}\n" + rust_prog(k, c, sigs[tuple(c["sig"])])
         line_of.append((start, text.count("\n")))
-    text += f"pub const COUNT: usize = {len(cases)};\npub fn run(k: usize) -> (String, String, String) {{\n    match k {{\n"
+    text += f"pub const COUNT: usize = {len(cases)};\npub fn run(k: usize) -> (String, String, String, usize) {{\n    match k {{\n"
     text += "".join(f"        {k} => prog_{k}(),\n" for k in range(len(cases)))
     text += "        _ => panic!(\"no such case\"),\n    }\n}\n"
     path = os.path.join(C.VERIF, "harness", HARNESS, "src", "gen.rs")
@@ -769,6 +771,9 @@ def judge(case, impl_lines, model_lines):
     info = {"impl_unordered": iu, "impl_ordered": io, "rustc_match": ir, "model_unordered": mu, "model_ordered": mo, "spec": ms, "flags": flags}
     if iu is None or io is None or ir is None:
         return "violation", dict(info, why="the program crashed or printed nothing on the implementation side", raw=impl_lines)
+    if i.get("D") not in (None, "0"):
+        return "violation", dict(info, why="the generated matcher ran user code (the Debug impl of an argument) while it only had to decide: "
+                                            f"{i.get('D')} runs during the unordered evaluations, where diagnostics are never requested", mode="unordered")
     if iu != ir or io != ir:
         which = "unordered" if iu != ir else "ordered"
         k = first_diff(iu if iu != ir else io, ir)
